@@ -110,7 +110,7 @@ SHARE = {
             ('C06.4', 'a filter that leaves no row still returns a table with all its columns')],
     'C02': [('C07.2', 'the merge walks the keys with cmp: it must be antisymmetric'), ('C07.3', 'int/float and NaN keys are equal under cmp'),
             ('C07.10', 'keys are compared after as_primitive'), ('C07.11', 'identical unorderable keys (None) are equal')],
-    'C03': [('C19.3', 'nested list/dict arguments are aligned member by member by the loop lifting')],
+    'C03': [('C19.3', 'nested list/dict arguments are aligned member by member by the loop lifting'), ('C12.4', 'the as-of reindex first drops, with _nona, exactly the rows that are missing in every column')],
     'C06': [('C18.3', 'a callable filter receives exactly the columns it names (kwargs_support)')],
     'C07': [('C18.3', 'dictable.sort with a key FUNCTION calls it with the columns it names (kwargs_support / getargs)')],
     'C08': [('C03.1', 'operators act on ALIGNED operands: the join policies'), ('C03.2', 'as-of fill'), ('C03.3', 'array alignment'), ('C03.7', 'every operand enters the common index'),
